@@ -1306,7 +1306,9 @@ pub fn decode_matches(buffer: &[u8]) -> Result<(Vec<Match>, usize)> {
     let mut matches = Vec::new();
     let mut total_bits = 0;
     
-    while reader.has_bits(CompressionType::type_bits()) {
+    // The shortest encoded match is 8 bits (type + 5 operand bits); BitWriter::finish pads with at most
+    // 7 zero bits, which must not be mistaken for the start of another (Literal) match.
+    while reader.has_bits(8) {
         let (match_type, bits_consumed) = decode_match(&mut reader)?;
         matches.push(match_type);
         total_bits += bits_consumed;
